@@ -206,6 +206,15 @@ def _run_one(args):
     return out
 
 
+_TIER = "quick"
+
+
+def _shard_timeout(mod):
+    """deadline per shard: the check's own (or 900 s), four times that for the thorough tier; generous on purpose - a
+    deadline is for code that no longer terminates, not for a loaded machine"""
+    return getattr(mod, "SHARD_TIMEOUT", 900) * (4 if _TIER == "thorough" else 1)
+
+
 def _library_exception(exc, shard):
     """an exception that escapes run_shard from inside the code under test (innermost frame in the repository) is the
     library failing on an input of the alphabet, not a harness fault: it becomes a violation whose replay is the shard"""
@@ -247,7 +256,7 @@ def _run_one_isolated(idx, shard):
     p = ctx.Process(target=target)
     p.start()
     child.close()
-    timeout = getattr(_MOD, "SHARD_TIMEOUT", 900)
+    timeout = _shard_timeout(_MOD)
     try:
         if parent.poll(timeout):
             out = parent.recv()
@@ -364,7 +373,7 @@ def run_shards(mod, shards, nproc=NPROC):
     total = Result()
     if not shards:
         raise HarnessError("no shards")
-    timeout = getattr(mod, "SHARD_TIMEOUT", 900)
+    timeout = _shard_timeout(mod)
     nproc = max(1, min(nproc, len(shards)))
     items = list(enumerate(shards))
     if getattr(mod, "SERIAL", False):
@@ -444,7 +453,7 @@ def run_shards(mod, shards, nproc=NPROC):
             if w[0].is_alive():
                 w[0].kill()
     for idx, shard in bad[:6]:
-        total.merge(_isolate(mod, idx, shard, min(timeout, 600)))
+        total.merge(_isolate(mod, idx, shard, timeout))
     if len(bad) > 6:
         total.notes.append("%d further shards killed their worker; only 6 isolated" % (len(bad) - 6))
     return total
@@ -592,6 +601,8 @@ def main(argv=None):
     a = ap.parse_args(argv)
     prop = a.prop.upper()
     tier = a.tier if a.tier in ("quick", "thorough") else "quick"
+    global _TIER
+    _TIER = tier
     try:
         seed = int(os.environ.get("VERIF_SEED", "0") or 0)
     except ValueError:
